@@ -403,6 +403,141 @@ theorem fu_depack (k : Nat) (hk : 1 ≤ k) (b0 b1 : UInt8) (fuel : Nat) (l : Byt
     rw [fu_depack_tail k hk b0 b1 fuel (l.drop k) hd (by rw [List.length_drop]; omega)]
     simp [List.take_append_drop]
 
+/-! ### a fragmentation unit train with AddDONL (the known finding: a DONL in every FU) -/
+
+/-- what a receiver that expects a DONL in *every* FU — as `H265Payloader` writes them — takes as
+    the payload of a non-first fragment: the two DONL octets are skipped.  (`H265Packet` and RFC 7798
+    read a DONL only in the first fragment.) -/
+def stripDonl (mode : Bool) : Packet → Packet
+  | .fu h false e t none p => .fu h false e t none (if mode then p.drop 2 else p)
+  | p => p
+
+theorem stripDonl_false (p : Packet) : stripDonl false p = p := by
+  cases p with
+  | fu h s e t d q => cases s <;> cases d <;> simp [stripDonl]
+  | _ => rfl
+
+/-- the FU train of `fuLoop` with AddDONL, as `H265Packet` decodes it: a DONL on the first
+    fragment, and on the others two more payload octets -/
+def fuDescsD (k : Nat) (b0 b1 : UInt8) : Nat → Bool → UInt16 → Bytes → List Packet
+  | 0, _, _, _ => []
+  | fuel + 1, first, d, l =>
+    if l.isEmpty then []
+    else
+      let cur := if l.length > k then k else l.length
+      (if first then
+        .fu (fuHdr b0 b1) true false (Hdr.ofNal [b0, b1]).type (some d) (l.take cur)
+       else
+        .fu (fuHdr b0 b1) false (l.length - cur == 0) (Hdr.ofNal [b0, b1]).type none (be16 d ++ l.take cur)) ::
+        fuDescsD k b0 b1 fuel false (d + 1) (l.drop cur)
+
+theorem fu_encodeD (cfg : Cfg) (hd : cfg.addDONL = true) (k : Nat) (b0 b1 : UInt8) (fuel : Nat) (first : Bool)
+    (d : UInt16) (l : Bytes) :
+    (fuLoop cfg k b0 b1 fuel first d l).1 = (fuDescsD k b0 b1 fuel first d l).map encode := by
+  induction fuel generalizing first d l with
+  | zero => rfl
+  | succ fuel ih =>
+    simp only [fuLoop, fuDescsD]
+    split
+    · rfl
+    · have ht : hdrType (rd16 b0 b1) = (Hdr.ofNal [b0, b1]).type := by
+        rw [← hdrView_ofNal b0 b1 []]; rfl
+      have ht64 : (Hdr.ofNal [b0, b1]).type.toNat < 64 := by
+        have := Hdr.ofNal_WF [b0, b1]
+        simp only [Hdr.WF, Bool.and_eq_true, decide_eq_true_eq] at this; omega
+      obtain ⟨g1, g2, g3⟩ := u8_fu_flag _ ht64
+      simp only [List.map_cons, ih, ht]
+      congr 1
+      cases first
+      · by_cases he : (l.length - if l.length > k then k else l.length) = 0
+        · simp [he, g2, encode, fuHdr_bytes, donlBytes, fuByte]
+        · simp [he, g3, encode, fuHdr_bytes, donlBytes, fuByte]
+      · simp [g1, encode, fuHdr_bytes, donlBytes, fuByte, be16_eq_u16be]
+
+theorem fu_goodD (k : Nat) (hk : 1 ≤ k) (b0 b1 : UInt8) (hf : (Hdr.ofNal [b0, b1]).f = false)
+    (ht : (Hdr.ofNal [b0, b1]).type.toNat < 48) (fuel : Nat) (first : Bool) (d : UInt16) (l : Bytes) :
+    ∀ p ∈ fuDescsD k b0 b1 fuel first d l, p.WF true = true ∧ shapeOk true p = true := by
+  induction fuel generalizing first d l with
+  | zero => intro p hp; simp [fuDescsD] at hp
+  | succ fuel ih =>
+    intro p hp
+    simp only [fuDescsD] at hp
+    split at hp
+    · simp at hp
+    · rename_i hne
+      simp only [List.mem_cons] at hp
+      rcases hp with rfl | hp
+      · have hl : 0 < l.length := by
+          cases l with
+          | nil => simp at hne
+          | cons _ _ => simp
+        have hne' : (List.take (if l.length > k then k else l.length) l) ≠ [] := by
+          intro h0
+          have : (List.take (if l.length > k then k else l.length) l).length = 0 := by rw [h0]; rfl
+          rw [List.length_take] at this; split at this <;> omega
+        have ht64 : (Hdr.ofNal [b0, b1]).type.toNat < 64 := by omega
+        have hff : (fuHdr b0 b1).f = false := hf
+        have h49 : (fuHdr b0 b1).type = 49 := rfl
+        cases first
+        · simp [Packet.WF, shapeOk, fuHdr_WF, hff, ht64, ht, h49, be16, Rtp.be16]
+        · simp [Packet.WF, shapeOk, fuHdr_WF, hff, ht64, ht, hne', h49]
+      · exact ih _ _ _ p hp
+
+/-- reassembly of the non-first fragments, the stray DONL octets skipped -/
+theorem fu_depack_tailD (k : Nat) (hk : 1 ≤ k) (b0 b1 : UInt8) (fuel : Nat) (d : UInt16) (l : Bytes)
+    (hl : l ≠ []) (hfuel : l.length ≤ fuel) (acc : Bytes) (rest : List Packet) :
+    depack (some (Hdr.ofNal [b0, b1], acc)) ((fuDescsD k b0 b1 fuel false d l).map (stripDonl true) ++ rest) =
+      (depack none rest).map (nalOf (Hdr.ofNal [b0, b1]) (acc ++ l) :: ·) := by
+  induction fuel generalizing d l acc with
+  | zero =>
+    cases l with
+    | nil => exact absurd rfl hl
+    | cons _ _ => simp at hfuel
+  | succ fuel ih =>
+    have hpos : 0 < l.length := by
+      cases l with
+      | nil => exact absurd rfl hl
+      | cons _ _ => simp
+    have hemp : l.isEmpty = false := by
+      cases l with
+      | nil => exact absurd rfl hl
+      | cons _ _ => rfl
+    have hdrop2 : ∀ q : Bytes, List.drop 2 (be16 d ++ q) = q := by intro q; rfl
+    simp only [fuDescsD, hemp, Bool.false_eq_true, if_false, List.map_cons, stripDonl, if_true, hdrop2,
+      List.cons_append, depack, Bool.not_false, Bool.true_and, fuHdr_unit, beq_self_eq_true]
+    by_cases hgt : l.length > k
+    · have he : (l.length - k == 0) = false := by simp; omega
+      simp only [hgt, if_true, he, Bool.false_eq_true, if_false]
+      have hdn : l.drop k ≠ [] := by
+        intro h0
+        have : (l.drop k).length = 0 := by rw [h0]; rfl
+        rw [List.length_drop] at this; omega
+      rw [ih (d + 1) (l.drop k) hdn (by rw [List.length_drop]; omega)]
+      simp [List.append_assoc, List.take_append_drop]
+    · simp only [hgt, if_false, Nat.sub_self, beq_self_eq_true, if_true, List.take_length, List.drop_length]
+      have : fuDescsD k b0 b1 fuel false (d + 1) [] = [] := by cases fuel <;> simp [fuDescsD]
+      simp [this]
+
+theorem fu_depackD (k : Nat) (hk : 1 ≤ k) (b0 b1 : UInt8) (fuel : Nat) (d : UInt16) (l : Bytes)
+    (hgt : l.length > k) (hfuel : l.length ≤ fuel) (rest : List Packet) :
+    depack none ((fuDescsD k b0 b1 fuel true d l).map (stripDonl true) ++ rest) =
+      (depack none rest).map (nalOf (Hdr.ofNal [b0, b1]) l :: ·) := by
+  cases fuel with
+  | zero => omega
+  | succ fuel =>
+    have hemp : l.isEmpty = false := by
+      cases l with
+      | nil => simp at hgt
+      | cons _ _ => rfl
+    have hdn : l.drop k ≠ [] := by
+      intro h0
+      have : (l.drop k).length = 0 := by rw [h0]; rfl
+      rw [List.length_drop] at this; omega
+    simp only [fuDescsD, hemp, Bool.false_eq_true, if_false, hgt, if_true, List.map_cons, stripDonl,
+      List.cons_append, depack, Bool.not_false, Bool.and_self, fuHdr_unit]
+    rw [fu_depack_tailD k hk b0 b1 fuel (d + 1) (l.drop k) hdn (by rw [List.length_drop]; omega)]
+    simp [List.take_append_drop]
+
 /-! ### reassembly distributes over complete packet runs -/
 
 theorem depack_append (st : Option (Hdr × Bytes)) (a b : List Packet) (x : List Bytes)
@@ -459,11 +594,13 @@ theorem depack_append (st : Option (Hdr × Bytes)) (a b : List Packet) (x : List
 
 /-! ### what a run of packets carries -/
 
-/-- `pkts` is the wire form of well-formed, RFC 7798-shaped packets that reassemble to `units` -/
+/-- `pkts` is the wire form of well-formed, RFC 7798-shaped packets that reassemble to `units` —
+    for a stream with AddDONL: once the stray DONL octets of non-first FUs are skipped
+    (`stripDonl`, the identity on everything but a non-first FU of a DONL stream) -/
 def Emits (cfg : Cfg) (pkts : List Bytes) (units : List Bytes) : Prop :=
   ∃ descs : List Packet, pkts = descs.map encode ∧
     (∀ p ∈ descs, p.WF cfg.addDONL = true ∧ shapeOk cfg.addDONL p = true) ∧
-    depack none descs = some units
+    depack none (descs.map (stripDonl cfg.addDONL)) = some units
 
 theorem Emits.nil (cfg : Cfg) : Emits cfg [] [] := ⟨[], rfl, by simp, rfl⟩
 
@@ -476,7 +613,7 @@ theorem Emits.append {cfg : Cfg} {a b ua ub : List Bytes} (ha : Emits cfg a ua) 
     rcases List.mem_append.mp hp with h | h
     · exact ga p h
     · exact gb p h
-  · rw [depack_append none da db ua ra, rb]; rfl
+  · rw [List.map_append, depack_append none _ _ ua ra, rb]; rfl
 
 /-- what is buffered are units of the property, short enough for a 16-bit size field -/
 def BufOK (l : List Bytes) : Prop := ∀ n ∈ l, UnitOK n ∧ n.length < 65536
@@ -485,7 +622,7 @@ theorem emits_single (cfg : Cfg) (d : UInt16) (n : Bytes) (h : UnitOK n) :
     Emits cfg [singlePkt cfg d n] [n] :=
   ⟨[singleDesc cfg d n], by simp [single_encode cfg d n (by have := h.1; omega)],
    by intro p hp; simp at hp; subst hp; exact single_good cfg d n h,
-   single_depack cfg d n (by have := h.1; omega)⟩
+   by simpa [singleDesc, stripDonl] using single_depack cfg d n (by have := h.1; omega)⟩
 
 theorem flush_rt (cfg : Cfg) (s : St) (hb : BufOK s.buf) : Emits cfg (flush cfg s).1 s.buf := by
   obtain ⟨buf, agg, donl⟩ := s
@@ -503,7 +640,7 @@ theorem flush_rt (cfg : Cfg) (s : St) (hb : BufOK s.buf) : Emits cfg (flush cfg 
     have h2 : ∀ m ∈ n1 :: n2 :: ns, 2 ≤ m.length := fun m hm => by have := (hb m hm).1.1; omega
     have hl : ∀ m ∈ n1 :: n2 :: ns, m.length < 65536 := fun m hm => (hb m hm).2
     refine ⟨[aggDesc cfg donl n1 (n2 :: ns)], by simp [agg_encode cfg donl n1 (n2 :: ns) h2 hl], ?_,
-      agg_depack cfg donl n1 (n2 :: ns)⟩
+      by simpa [aggDesc, stripDonl] using agg_depack cfg donl n1 (n2 :: ns)⟩
     intro p hp; simp at hp; subst hp
     exact agg_good cfg donl n1 (n2 :: ns) (by simp) h2 hl
 
@@ -557,8 +694,7 @@ theorem flush_one (cfg : Cfg) (n : Bytes) (a : Nat) (d : UInt16) :
 
 theorem step_rt (cfg : Cfg) (mtu : Nat) (s : St) (n : Bytes) (hb : BufOK s.buf)
     (hn : UnitOK n) (hmin : (if cfg.addDONL then 6 else 4) ≤ mtu) (hmax : mtu < 65536)
-    (res : List Bytes × St) (hres : step cfg mtu s n = res)
-    (hnofu : cfg.addDONL = true → ∀ p ∈ res.1, isFU p = false) :
+    (res : List Bytes × St) (hres : step cfg mtu s n = res) :
     ∃ e, Emits cfg res.1 e ∧ s.buf ++ [n] = e ++ res.2.buf ∧ BufOK res.2.buf := by
   have hn3 := hn.1
   have hn2 : ¬ n.length < 2 := by omega
@@ -613,7 +749,7 @@ theorem step_rt (cfg : Cfg) (mtu : Nat) (s : St) (n : Bytes) (hb : BufOK s.buf)
       subst hres
       obtain ⟨a, b, c, r, rfl⟩ := unit_split n hn3
       simp only [List.getD_cons_zero, List.getD_cons_succ, List.drop_succ_cons, List.drop_zero,
-        List.length_cons] at hnofu hone ⊢
+        List.length_cons] at hone ⊢
       cases hd : cfg.addDONL
       · -- a fragmentation unit train
         simp only [hd, Bool.false_eq_true, if_false, Nat.add_zero] at hone hmin
@@ -628,41 +764,84 @@ theorem step_rt (cfg : Cfg) (mtu : Nat) (s : St) (n : Bytes) (hb : BufOK s.buf)
           · have := fu_good (mtu - 3) hk a b hn.2.1 hn.2.2 (c :: r).length true (c :: r)
             simpa [hd] using this
           · have := fu_depack (mtu - 3) hk a b (c :: r).length (c :: r) hgt (Nat.le_refl _) []
+            have hid : (fuDescs (mtu - 3) a b (c :: r).length true (c :: r)).map (stripDonl cfg.addDONL) =
+                fuDescs (mtu - 3) a b (c :: r).length true (c :: r) := by
+              rw [hd]
+              have : stripDonl false = id := funext stripDonl_false
+              simp [this]
+            rw [hid]
             simpa [depack, nalOf, Hdr.ofNal_bytes] using this
         exact ⟨s.buf ++ [a :: b :: c :: r], hf1.append hfu, by simp, BufOK.nil⟩
-      · -- with AddDONL a fragmented unit is the region of the known finding; excluded by hypothesis
-        exfalso
-        obtain ⟨p, hp, hpf⟩ := fuLoop_head_isFU cfg (mtu - (3 + if cfg.addDONL then 2 else 0)) a b
-          (r.length + 1 + 1 + 1 - 2) true s1.donl (c :: r) (by simp) (by omega)
-        have := hnofu hd p (List.mem_append_right _ hp)
-        rw [this] at hpf; simp at hpf
+      · -- with AddDONL: the train of the known finding (a DONL in every FU)
+        simp only [hd, if_true] at hone hmin
+        have hk : 1 ≤ mtu - (3 + 2) := by omega
+        have hgt : (c :: r).length > mtu - (3 + 2) := by simp only [List.length_cons]; omega
+        have e : r.length + 1 + 1 + 1 - 2 = (c :: r).length := by simp
+        rw [e]
+        have hfu : Emits cfg (fuLoop cfg (mtu - (3 + 2)) a b (c :: r).length true s1.donl (c :: r)).1
+            [a :: b :: c :: r] := by
+          refine ⟨fuDescsD (mtu - (3 + 2)) a b (c :: r).length true s1.donl (c :: r),
+            fu_encodeD cfg hd _ a b _ true _ _, ?_, ?_⟩
+          · have := fu_goodD (mtu - (3 + 2)) hk a b hn.2.1 hn.2.2 (c :: r).length true s1.donl (c :: r)
+            simpa [hd] using this
+          · have := fu_depackD (mtu - (3 + 2)) hk a b (c :: r).length s1.donl (c :: r) hgt (Nat.le_refl _) []
+            rw [hd]
+            simpa [depack, nalOf, Hdr.ofNal_bytes] using this
+        exact ⟨s.buf ++ [a :: b :: c :: r], hf1.append hfu, by simp, BufOK.nil⟩
 
 theorem run_rt (cfg : Cfg) (mtu : Nat) (hmin : (if cfg.addDONL then 6 else 4) ≤ mtu) (hmax : mtu < 65536)
-    (s : St) (ns : List Bytes) (hb : BufOK s.buf) (hns : ∀ n ∈ ns, UnitOK n)
-    (hnofu : cfg.addDONL = true → ∀ p ∈ (run cfg mtu s ns).1, isFU p = false) :
+    (s : St) (ns : List Bytes) (hb : BufOK s.buf) (hns : ∀ n ∈ ns, UnitOK n) :
     Emits cfg (run cfg mtu s ns).1 (s.buf ++ ns) := by
   induction ns generalizing s with
   | nil => simpa [run] using flush_rt cfg s hb
   | cons n ns ih =>
-    simp only [run] at hnofu ⊢
+    simp only [run]
     obtain ⟨e, he, hsplit, hb'⟩ := step_rt cfg mtu s n hb (hns n (by simp)) hmin hmax _ rfl
-      (fun hd p hp => hnofu hd p (List.mem_append_left _ hp))
     have h2 := ih (step cfg mtu s n).2 hb' (fun m hm => hns m (by simp [hm]))
-      (fun hd p hp => hnofu hd p (List.mem_append_right _ hp))
     have := he.append h2
     have e2 : e ++ ((step cfg mtu s n).2.buf ++ ns) = s.buf ++ n :: ns := by
       rw [← List.append_assoc, ← hsplit]; simp
     rw [e2] at this
     exact this
 
-/-- from the description level to the predicate the harness evaluates -/
+theorem isFU_encode_fu (h : Hdr) (s e : Bool) (t : UInt8) (d : Option UInt16) (q : Bytes)
+    (hw : h.WF = true) (h49 : h.type = 49) : isFU (encode (.fu h s e t d q)) = true := by
+  obtain ⟨a, b, hb, hv⟩ := hdr_bytes h hw
+  obtain ⟨_, e2⟩ := hdr_facts a b h hv
+  simp [encode, hb, isFU, hdrIsFU, e2, h49]
+
+/-- a well-formed packet whose wire form is not an FU is left alone by `stripDonl` -/
+theorem stripDonl_of_not_fu (mode : Bool) (p : Packet) (hwf : p.WF mode = true)
+    (hn : isFU (encode p) = false) : stripDonl mode p = p := by
+  cases p with
+  | fu h s e t d q =>
+    simp only [Packet.WF, Bool.and_eq_true, Bool.not_eq_true', beq_iff_eq, decide_eq_true_eq] at hwf
+    rw [isFU_encode_fu h s e t d q hwf.1.1.1.1.1 hwf.1.1.1.2] at hn
+    simp at hn
+  | _ => rfl
+
+/-- from the description level to the predicate the harness evaluates; outside the region of the
+    known finding (no FU on a DONL stream) `stripDonl` changes nothing -/
 theorem callOk_of_emits (cfg : Cfg) (mtu : UInt16) (pkts units : List Bytes)
-    (he : Emits cfg pkts units) (hbd : Bounded mtu.toNat pkts) :
+    (he : Emits cfg pkts units) (hbd : Bounded mtu.toNat pkts)
+    (hnofu : cfg.addDONL = true → ∀ p ∈ pkts, isFU p = false) :
     C14.callOk cfg mtu units (pkts.map (pktObs cfg.addDONL)) = true := by
   obtain ⟨descs, rfl, hgood, hdep⟩ := he
+  have hid : descs.map (stripDonl cfg.addDONL) = descs := by
+    cases hd : cfg.addDONL
+    · have : stripDonl false = id := funext stripDonl_false
+      simp [this]
+    · have : ∀ p ∈ descs, stripDonl true p = p := by
+        intro p hp
+        have hg := (hgood p hp).1
+        rw [hd] at hg
+        exact stripDonl_of_not_fu true p hg (hnofu hd _ (List.mem_map.mpr ⟨p, hp, rfl⟩))
+      calc descs.map (stripDonl true) = descs.map id := List.map_congr_left this
+        _ = descs := List.map_id descs
+  rw [hid] at hdep
   have hmap : (List.map (pktObs cfg.addDONL) (descs.map encode)).mapM (fun p => p.res.toOption) =
       some (descs.map fun d => ({ pkt := d, tsci := d.tsci, sizesOk := true } : Parsed)) := by
-    clear hdep hbd
+    clear hdep hbd hnofu hid
     induction descs with
     | nil => rfl
     | cons d ds ih =>
@@ -687,7 +866,7 @@ theorem callOk_of_emits (cfg : Cfg) (mtu : UInt16) (pkts units : List Bytes)
       have : List.zip (List.map (pktObs cfg.addDONL) (List.map encode descs))
           (List.map (fun d => ({ pkt := d, tsci := d.tsci, sizesOk := true } : Parsed)) descs) =
           descs.map fun d => (pktObs cfg.addDONL (encode d), ({ pkt := d, tsci := d.tsci, sizesOk := true } : Parsed)) := by
-        clear hpv hmap hdep hbd hgood
+        clear hpv hmap hdep hbd hgood hnofu hid
         induction descs with
         | nil => rfl
         | cons d ds ih => simp only [List.map_cons, List.zip_cons_cons, ih]
@@ -715,8 +894,7 @@ theorem frameBytes_ne_nil (f : List (Nat × Bytes)) (h : C14.frameWF f = true) :
 /-- one `Payload` call on a well-formed frame: the fragments are the wire form of well-formed,
     RFC 7798-shaped packets that reassemble to the frame's units -/
 theorem payload_emits (cfg : Cfg) (mtu d : UInt16) (f : List (Nat × Bytes)) (hf : C14.frameWF f = true)
-    (hmin : (if cfg.addDONL then 6 else 4) ≤ mtu.toNat)
-    (hnofu : cfg.addDONL = true → ∀ p ∈ (payload cfg mtu d (some (C14.frameBytes f))).1, isFU p = false) :
+    (hmin : (if cfg.addDONL then 6 else 4) ≤ mtu.toNat) :
     Emits cfg (payload cfg mtu d (some (C14.frameBytes f))).1 (f.map (·.2)) := by
   have hm0 : (mtu == 0) = false := by
     rw [beq_eq_false_iff_ne]; intro h0; subst h0
@@ -725,7 +903,7 @@ theorem payload_emits (cfg : Cfg) (mtu d : UInt16) (f : List (Nat × Bytes)) (hf
       run cfg mtu.toNat { buf := [], agg := 0, donl := d } (f.map (·.2)) := by
     simp only [payload, Option.getD_some, frameBytes_ne_nil f hf, hm0, Bool.or_self, Bool.false_eq_true,
       if_false, emitNalus_frame f hf]
-  rw [hpay] at hnofu ⊢
+  rw [hpay]
   have hunits : ∀ n ∈ f.map (·.2), UnitOK n := by
     intro n hn
     simp only [List.mem_map] at hn
@@ -735,7 +913,7 @@ theorem payload_emits (cfg : Cfg) (mtu d : UInt16) (f : List (Nat × Bytes)) (hf
     obtain ⟨h3, h1, h2, _⟩ := nalWF_parts u.2 this
     exact ⟨h3, h1, h2⟩
   have he := run_rt cfg mtu.toNat hmin mtu.toNat_lt { buf := [], agg := 0, donl := d } (f.map (·.2))
-    BufOK.nil hunits hnofu
+    BufOK.nil hunits
   simpa using he
 
 theorem payload_frame (cfg : Cfg) (mtu d : UInt16) (f : List (Nat × Bytes)) (hf : C14.frameWF f = true)
@@ -743,8 +921,8 @@ theorem payload_frame (cfg : Cfg) (mtu d : UInt16) (f : List (Nat × Bytes)) (hf
     (hnofu : cfg.addDONL = true → ∀ p ∈ (payload cfg mtu d (some (C14.frameBytes f))).1, isFU p = false) :
     C14.callOk cfg mtu (f.map (·.2))
       ((payload cfg mtu d (some (C14.frameBytes f))).1.map (pktObs cfg.addDONL)) = true :=
-  callOk_of_emits cfg mtu _ _ (payload_emits cfg mtu d f hf hmin hnofu)
-    (payload_bounded cfg mtu d (some (C14.frameBytes f)))
+  callOk_of_emits cfg mtu _ _ (payload_emits cfg mtu d f hf hmin)
+    (payload_bounded cfg mtu d (some (C14.frameBytes f))) hnofu
 
 theorem rt_frames (cfg : Cfg) (mtu : UInt16) (hmin : (if cfg.addDONL then 6 else 4) ≤ mtu.toNat)
     (frames : List (List (Nat × Bytes))) (hf : ∀ f ∈ frames, C14.frameWF f = true) (d : UInt16)
